@@ -157,6 +157,10 @@ def run(prog: Program, col: Collector, tier: str, refs: Optional[Refs] = None, c
     col.rule("R04.12", "blocks that are multiplied together in an eager_subs are concatenated over the same sequence of names", floor=1)
     _co_indexed_blocks(prog, col, refs, cat, colls)
 
+    # ---------------------------------------------------------------- R04.13
+    col.rule("R04.13", "slicing a concatenation: the part-local slice bounds select exactly the global indices start, start+step, ... that fall into the part", floor=1)
+    _cat_slice_arithmetic(prog, col, refs, cat)
+
     # ---------------------------------------------------------------- R04.3
     col.rule("R04.3", "Subs declares f's unsubstituted inputs plus the inputs of the substituted values", floor=3)
     si = require_func(prog, "funsor.terms::Subs.__init__")
@@ -790,3 +794,145 @@ def _co_indexed_blocks(prog: Program, col: Collector, refs: Refs, cat: Catalogue
                       "the two arrays are multiplied position by position, so a value meets the block of another variable whenever the two orders differ "
                       "(e.g. the caller wrote the pairs in another order than the term's inputs)", f.loc(st1))
     col.cur.analysed["co_indexed_block_pairs"] = n
+
+
+# ---------------------------------------------------------------------- R04.13
+class _NoEval(Exception):
+    pass
+
+
+def _ieval(e: ast.AST, env: Dict[str, int]):
+    """evaluate a side-effect-free integer expression of the analysed program over concrete small integers (the analyser's own
+    evaluator; nothing of the repository is executed)"""
+    if isinstance(e, ast.Constant) and isinstance(e.value, (int, bool)):
+        return e.value
+    if isinstance(e, ast.Name):
+        if e.id in env:
+            return env[e.id]
+        raise _NoEval(e.id)
+    if isinstance(e, ast.BinOp):
+        a, b = _ieval(e.left, env), _ieval(e.right, env)
+        if isinstance(e.op, ast.Add):
+            return a + b
+        if isinstance(e.op, ast.Sub):
+            return a - b
+        if isinstance(e.op, ast.Mult):
+            return a * b
+        if isinstance(e.op, ast.FloorDiv):
+            if b == 0:
+                raise _NoEval("div0")
+            return a // b
+        if isinstance(e.op, ast.Mod):
+            if b == 0:
+                raise _NoEval("div0")
+            return a % b
+        raise _NoEval(type(e.op).__name__)
+    if isinstance(e, ast.UnaryOp):
+        v = _ieval(e.operand, env)
+        if isinstance(e.op, ast.USub):
+            return -v
+        if isinstance(e.op, ast.Not):
+            return not v
+        if isinstance(e.op, ast.UAdd):
+            return v
+        raise _NoEval("unary")
+    if isinstance(e, ast.IfExp):
+        return _ieval(e.body, env) if _ieval(e.test, env) else _ieval(e.orelse, env)
+    if isinstance(e, ast.Compare):
+        left = _ieval(e.left, env)
+        for op, c in zip(e.ops, e.comparators):
+            right = _ieval(c, env)
+            ok = {ast.Lt: left < right, ast.LtE: left <= right, ast.Gt: left > right, ast.GtE: left >= right, ast.Eq: left == right, ast.NotEq: left != right}.get(type(op))
+            if ok is None:
+                raise _NoEval("cmp")
+            if not ok:
+                return False
+            left = right
+        return True
+    if isinstance(e, ast.BoolOp):
+        vals = [_ieval(v, env) for v in e.values]
+        return all(vals) if isinstance(e.op, ast.And) else any(vals)
+    if isinstance(e, ast.Call) and isinstance(e.func, ast.Name) and e.func.id in ("min", "max", "abs") and not e.keywords:
+        vals = [_ieval(a, env) for a in e.args]
+        return {"min": min, "max": max, "abs": lambda *x: abs(x[0])}[e.func.id](*vals)
+    raise _NoEval(type(e).__name__)
+
+
+def _iexec(stmts, env: Dict[str, int]):
+    for st in stmts:
+        if isinstance(st, ast.Assign) and len(st.targets) == 1 and isinstance(st.targets[0], ast.Name):
+            env[st.targets[0].id] = _ieval(st.value, env)
+        elif isinstance(st, ast.AugAssign) and isinstance(st.target, ast.Name):
+            env[st.target.id] = _ieval(ast.BinOp(left=ast.Name(id=st.target.id, ctx=ast.Load()), op=st.op, right=st.value), env)
+        elif isinstance(st, ast.If):
+            _iexec(st.body if _ieval(st.test, env) else st.orelse, env)
+        else:
+            raise _NoEval(type(st).__name__)
+
+
+def _cat_slice_arithmetic(prog: Program, col: Collector, refs: Refs, cat: Catalogue):
+    """Cat.eager_subs with a Slice value walks the parts with a running offset `pos` and gives each part the local slice
+    Slice(part_name, pstart, pstop, step, psize).  The integer expressions for pstart / pstop are extracted and evaluated (by
+    the analyser's own evaluator) for every pos, psize, start, stop, step on a small grid; wherever the part [pos, pos + psize)
+    contains a selected index, pstart must be the offset of the first one and pstop must not cut a selected index off."""
+    f = prog.funcs.get("funsor.terms::Cat.eager_subs")
+    if f is None:
+        raise AnalysisError("anchor Cat.eager_subs not found")
+    loops = [lp for lp in walk_no_nested(f.node) if isinstance(lp, ast.For)
+             and any(isinstance(c, ast.Call) and refs.resolve(c.func) == "funsor.terms.Slice" and len(c.args) >= 5 for c in ast.walk(lp))]
+    if not loops:
+        raise AnalysisError("Cat.eager_subs: the loop that builds per-part slices was not found")
+    lp = loops[0]
+    sl = [c for c in ast.walk(lp) if isinstance(c, ast.Call) and refs.resolve(c.func) == "funsor.terms.Slice" and len(c.args) >= 5][0]
+    a_start, a_stop, a_step, a_size = sl.args[1], sl.args[2], sl.args[3], sl.args[4]
+    # names by role: the slice components unpacked from <value>.slice, the running offset (augmented by the part size at the end of the body)
+    comp = {}
+    for st in walk_no_nested(f.node):
+        if isinstance(st, ast.Assign) and isinstance(st.targets[0], ast.Tuple) and isinstance(st.value, ast.Tuple) and len(st.targets[0].elts) == len(st.value.elts):
+            for t, v in zip(st.targets[0].elts, st.value.elts):
+                if isinstance(t, ast.Name) and isinstance(v, ast.Attribute) and isinstance(v.value, ast.Attribute) and v.value.attr == "slice" and v.attr in ("start", "stop", "step"):
+                    comp[v.attr] = t.id
+        if isinstance(st, ast.Assign) and len(st.targets) == 1 and isinstance(st.targets[0], ast.Name) and isinstance(st.value, ast.Attribute) \
+                and isinstance(st.value.value, ast.Attribute) and st.value.value.attr == "slice" and st.value.attr in ("start", "stop", "step"):
+            comp[st.value.attr] = st.targets[0].id
+    offs = [st for st in lp.body if isinstance(st, ast.AugAssign) and isinstance(st.op, ast.Add) and isinstance(st.target, ast.Name)]
+    if set(comp) != {"start", "stop", "step"} or len(offs) != 1 or not isinstance(a_size, ast.Name):
+        col.unresolved(f"{f.fq}::slice arithmetic", "cannot identify the slice components / running offset / part size by role", f.loc(lp))
+        return
+    pos_n, psize_n = offs[0].target.id, a_size.id
+    # the arithmetic prefix of the loop body: everything before the statement that contains the Slice construction
+    prefix = []
+    for st in lp.body:
+        if any(x is sl for x in ast.walk(st)):
+            break
+        if isinstance(st, ast.Assign) and isinstance(st.targets[0], ast.Name) and st.targets[0].id == psize_n:
+            continue  # psize = part.inputs[...].size : an input of the arithmetic
+        prefix.append(st)
+    bad = None
+    n_cases = 0
+    try:
+        for step in (1, 2, 3, 4):
+            for psize in (1, 2, 3, 5):
+                for pos in range(0, 7):
+                    for start in range(0, 9):
+                        for stop in range(start + 1, 12):
+                            env = {comp["start"]: start, comp["stop"]: stop, comp["step"]: step, pos_n: pos, psize_n: psize}
+                            _iexec(prefix, env)
+                            ps, pe, pstep = _ieval(a_start, env), _ieval(a_stop, env), _ieval(a_step, env)
+                            want = [g - pos for g in range(start, stop, step) if pos <= g < pos + psize]
+                            if not want:
+                                continue
+                            n_cases += 1
+                            got = list(range(ps, min(pe, psize), pstep)) if pstep > 0 else None
+                            if got != want and bad is None:
+                                bad = (dict(pos=pos, psize=psize, start=start, stop=stop, step=step), ps, pe, want)
+    except _NoEval as ex:
+        col.unresolved(f"{f.fq}::slice arithmetic", f"the bound expressions are not plain integer arithmetic ({ex})", f.loc(lp))
+        return
+    col.cur.analysed["cat_slice_cases"] = n_cases
+    if bad:
+        case, ps, pe, want = bad
+        col.violation(f"{f.fq}::slice arithmetic", f"for {case} the part-local slice is [{ps}:{pe}:{case['step']}] but the selected indices of this part are {want} "
+                      "(offsets from the start of the part): the slice of the concatenation picks elements that were not selected", f.loc(sl))
+    else:
+        col.ok(f"{f.fq}::slice arithmetic", f"{n_cases} combinations of (offset, part size, start, stop, step) on the grid: the part-local slice selects exactly the global selection", f.loc(sl))
